@@ -22,7 +22,7 @@ RULE = ('cases: (dbscan) 1-14 points on small integer grids (duplicates, colline
         'distance matrices (grid squared distances with ties / tie-free Sidon values), k 1-4, hierarchical tiers 0-4; '
         'malformed stream with repeated points and k above the number of distinct points; 45% of the k-medoids cases use ASYMMETRIC '
         'distance matrices (all entries distinct = tie-free, random, metric base with one-way detours, one-way ring road), for '
-        'create_kmedoids and create_hierarchical_kmedoids alike. (job clusters) a real Problem of 1-14 jobs (single jobs, jobs with '
+        'create_kmedoids and create_hierarchical_kmedoids alike. (job clusters) a real Problem of 1-17 jobs (single jobs, jobs with '
         'alternative places, multi jobs, jobs without any location) over integer matrices per profile (1-2 profiles, 1-2 vehicles '
         'per profile, optional one-way detours): two dense groups joined by one shared border job where one group\'s core has '
         'exactly min_points neighbours (a legitimate cluster of <= min_points members), evenly spaced chains (cores with exactly '
